@@ -119,6 +119,9 @@ func (m *Machine) checkListings(s *Snap, ord []*JobRec) {
 		if j.MaybePurged {
 			continue
 		}
+		if m.cfg.Retention && s.Jobs[j.ID] == nil && (m.mon.finished[j.ID] > 0 || j.CancelAcked || j.Replaced || j.Bad != "" || j.ShutdownSeq != 0) {
+			continue // a finished job: retention may have removed it (whether rightly is judged where the save is made)
+		}
 		found := false
 		err := m.w.PR.ReadJob(j.ID, func(pj *prunner.PipelineJob) { found = pj.ID == j.ID })
 		if err != nil || !found {
